@@ -14,7 +14,7 @@ def tu_check(tu):
 
 def run(tier="quick", seed=0, use_cache=True):
     res = engine.Result("C10")
-    res.rules = ["SETOP-TABLE", "OP-WIRING", "ALIAS-GUARD", "FRESH-ONLY", "OPERAND-ADAPT", "INPLACE-MONOTONE", "INPLACE-OPERAND"]
+    res.rules = ["SETOP-TABLE", "OP-WIRING", "ALIAS-GUARD", "FRESH-ONLY", "OPERAND-ADAPT", "INPLACE-MONOTONE", "INPLACE-OPERAND", "INPLACE-REPLACE"]
     res.exhaustive = True
     res.explanation = (
         "Decision-table extraction for difference / union / intersection: for "
@@ -34,7 +34,8 @@ def run(tier="quick", seed=0, use_cache=True):
         "and removes from the container (INPLACE-MONOTONE: per-occurrence "
         "toggling, C x22 and Python); the Python in-place operators consume "
         "their operand exactly once and never through a membership test "
-        "(INPLACE-OPERAND: one-shot iterators, str). Assumes container cursors yield strictly "
+        "(INPLACE-OPERAND: one-shot iterators, str); the rebuild step of C &= "
+        "dominates every success result (INPLACE-REPLACE). Assumes container cursors yield strictly "
         "increasing keys (C01); result equality on concrete operands is not "
         "decided.")
     res.assumptions = ["container cursors yield strictly increasing keys (C01)",
@@ -49,6 +50,8 @@ def run(tier="quick", seed=0, use_cache=True):
     res.floor("in-place alias guards (OO)", oo["inplace"], 4)
     res.floor("mutations of self inside loops of the in-place operators (OO)", oo.get("inplace_loop_mutations", 0), 6)
     res.count("INPLACE-MONOTONE", sum(r["stats"].get("inplace_loop_mutations", 0) for r in out.values()))
+    res.floor("success results of the &= slot functions (OO)", oo.get("inplace_and_results", 0), 2)
+    res.count("INPLACE-REPLACE", sum(r["stats"].get("inplace_and_results", 0) for r in out.values()))
     res.floor("translation units", len(out), 22)
     res.count("OP-WIRING", sum(r["stats"]["slots"] for r in out.values()))
     res.count("ALIAS-GUARD", sum(r["stats"]["inplace"] for r in out.values()))
